@@ -32,7 +32,9 @@ RULE = ("seeded schedules; distinct = canonical schedule JSON; non-trivial = som
 REQUIRED_BUCKETS = ["arrival-while-in-flight", "coalesced(overwritten-pending)", "arrival-at-completion-instant",
                     "in-flight-raised", "multi-group", "duration-0", "pending-started-at-exit-instant",
                     "independent-group-started-while-other-busy", "equal-requests-repeated",
-                    "overlapping-groups", "through-the-power-wrapper", "requests-issued-in-one-loop-iteration"]
+                    "overlapping-groups", "through-the-power-wrapper", "requests-issued-in-one-loop-iteration",
+                    "caller-re-targets-one-set-object-from-request-to-request",
+                    "actor-stopped-and-started-again:while-a-distribution-is-in-flight"]
 REQUIRED_COUNTERS = ["requests_sent", "distributions_entered", "schedules_run"]
 ASSUMPTIONS = ["probe ComponentManager; virtual time"]
 
@@ -62,7 +64,12 @@ def gen(rng: Any, tier: str, i: int) -> Any:
         for r in reqs:
             if rng.random() < 0.6:
                 r.append(rng.choice([0, 0, 1]))
-    return {"n_groups": ng, "requests": reqs, "via_wrapper": rng.random() < 0.3, "bursts": rng.random() < 0.5}
+    via_wrapper = rng.random() < 0.3
+    return {"n_groups": ng, "requests": reqs, "via_wrapper": via_wrapper, "bursts": rng.random() < 0.5,
+            # the caller keeps ONE mutable set object for Request.component_ids and re-targets it from request to request
+            "shared_set": ng >= 2 and rng.random() < 0.25,
+            # the actor is stopped and started again in the middle of the schedule (requests may be in flight / pending)
+            "restart_at": round(rng.uniform(0.2, 0.8) * t + 0.25, 3) if (not via_wrapper and rng.random() < 0.2) else None}
 
 
 async def _drive(case: dict[str, Any], log: list[Any]) -> None:
@@ -78,6 +85,8 @@ async def _drive(case: dict[str, Any], log: list[Any]) -> None:
     script[-1.0] = (0, False)
     ident: dict[int, float] = {}
     objs: dict[float, Any] = {}
+    group_when_sent: dict[float, Any] = {}
+    shared: set[int] = set()
 
     class Probe:
         def __init__(self, *a: Any, **k: Any) -> None:
@@ -97,6 +106,8 @@ async def _drive(case: dict[str, Any], log: list[Any]) -> None:
             rid = ident.get(id(request))
             if rid is None:  # a copy of the request object: the most recent sent request equal to it
                 rid = next((r for r, o in reversed(list(objs.items())) if o == request), -1.0)
+            if rid in group_when_sent:
+                g = group_when_sent[rid]  # (the caller may have re-targeted its set object since)
             log.append(("enter", g, rid, loop.time()))
             d, fail = script[rid]
             try:
@@ -143,19 +154,40 @@ async def _drive(case: dict[str, Any], log: list[Any]) -> None:
             tx = reqc.new_sender()
         await asyncio.sleep(0)
         t0 = loop.time()
-        for i, (at, g, _d, _f, *shared) in enumerate(case["requests"]):
+        restarted = case.get("restart_at") is None
+
+        async def restart() -> None:
+            await actor.stop()
+            await asyncio.sleep(0.125)
+            actor.start()
+            log.append(("restarted", (), 0.0, loop.time()))
+
+        for i, (at, g, _d, _f, *pclass) in enumerate(case["requests"]):
+            if not restarted and at >= case["restart_at"]:
+                dt = t0 + case["restart_at"] - loop.time()
+                if dt > 0:
+                    await asyncio.sleep(dt)
+                restarted = True
+                await restart()
             dt = t0 + at - loop.time()
             if dt > 0:
                 await asyncio.sleep(dt)
             grp = tuple(GROUPS[g])
             log.append(("sent", grp, float(i + 1), loop.time()))
+            group_when_sent[float(i + 1)] = tuple(sorted(grp))
             members = list(grp) if i % 3 != 1 else list(reversed(grp))
-            req = Request(power=Power.from_watts(1000.0 + shared[0] if shared else float(i + 1)), component_ids=set(members))
+            ids: set[int] = set(members)
+            if case.get("shared_set"):
+                shared.clear()
+                shared.update(members)
+                ids = shared
+            req = Request(power=Power.from_watts(1000.0 + pclass[0] if pclass else float(i + 1)), component_ids=ids)
             ident[id(req)] = float(i + 1)
             objs[float(i + 1)] = req  # (kept alive: object identity is the request id)
             await tx.send(req)
             nxt_at = case["requests"][i + 1][0] if i + 1 < len(case["requests"]) else None
-            if case.get("bursts") and nxt_at == at:
+            if case.get("bursts") and nxt_at == at and not case.get("shared_set"):
+                # (with a shared set object the caller re-targets it only after the actor has taken the request over)
                 continue  # requests issued in one go (same event-loop iteration), e.g. by one actor for several pools
             for _ in range(6):
                 await asyncio.sleep(0)
@@ -188,7 +220,13 @@ def check(case: dict[str, Any], rec: Any) -> None:
         rec.bucket("equal-requests-repeated")
     script = {float(i + 1): (r[2], r[3]) for i, r in enumerate(case["requests"])}
     nontrivial = False
-    groups = sorted({e[1] for e in log if e[0] != "quiescent"})
+    groups = sorted({e[1] for e in log if e[0] not in ("quiescent", "restarted")})
+    if case.get("shared_set"):
+        rec.bucket("caller-re-targets-one-set-object-from-request-to-request")
+    for e in log:
+        if e[0] == "restarted":
+            busy = sum(1 for x in log if x[0] == "enter" and x[3] <= e[3]) > sum(1 for x in log if x[0] == "exit" and x[3] <= e[3])
+            rec.bucket("actor-stopped-and-started-again" + (":while-a-distribution-is-in-flight" if busy else ""))
     sig = []
     for g in groups:
         ev = [e for e in log if e[1] == g]
